@@ -1,3 +1,4 @@
+import Ebu.Spec.Flow
 import Ebu.Spec.State
 import Ebu.Proofs.State
 /-!
@@ -56,5 +57,10 @@ theorem resume_equiv (m : Mat) (l1 l2 : List Ev) (hinc : increasing (l1 ++ l2))
 type the composite key determines the key -/
 theorem compositeKey_inj (ty k1 k2 : String) (h : compositeKey ty k1 = compositeKey ty k2) : k1 = k2 :=
   Ebu.State.compositeKey_inj ty k1 k2 h
+
+/-! ### obligations on the control flow of the CURRENT source (`Ebu/Generated/Flow.lean`, regenerated from /repo on every run) -/
+
+/-- OBLIGATION: `Materializer.Apply` writes `lastOffset` only after a control message or an error-free change was applied; a reset clears every collection under the lock and calls `onReset` afterwards; an unknown entity type is an error only in strict mode -/
+theorem flow_materializer_shape : Ebu.Flow.materializerShape = true := by decide +kernel
 
 end Ebu.Props.C18
